@@ -248,3 +248,23 @@ Proof.
       rewrite E2. reflexivity.
   - cbn [Nat.mul]. lia.
 Qed.
+
+(* ---- only completely empty lines are ignored ----------------------------------------------------------- *)
+(* a line that is not empty - in particular one made of blanks only, or a single space - is returned
+   as a line by both fixed-length line loops (any length, LF or CRLF terminated) *)
+Lemma nonempty_line_kept l crlf X :
+  l <> [] -> mem_byte LF l = false -> mem_byte CR l = false ->
+  (forall fuel, f1_readline (S fuel) (l ++ eol crlf ++ X) = Some (Some l, X))
+  /\ (forall fuel gen, f2_fetch (S fuel) (l ++ eol crlf ++ X) gen = Some (Some l, X, S gen)).
+Proof.
+  intros Hne Hlf Hcr.
+  assert (Hr : read_line (l ++ eol crlf ++ X) = RLOk l X).
+  { destruct crlf; cbn [eol app].
+    - rewrite (read_line_terminated_proof (l ++ CR :: LF :: X) (l ++ [CR]) X).
+      + rewrite strip_last_app. reflexivity.
+      + change (l ++ CR :: LF :: X) with (l ++ [CR] ++ LF :: X). rewrite app_assoc.
+        apply split_lf_app. rewrite mem_byte_app, Hlf. reflexivity.
+    - rewrite (read_line_terminated_proof (l ++ LF :: X) l X (split_lf_app l X Hlf)).
+      rewrite strip_last_nocr by exact Hcr. reflexivity. }
+  split; intros; cbn [f1_readline f2_fetch]; rewrite Hr; destruct l; [congruence|reflexivity|congruence|reflexivity].
+Qed.
